@@ -133,6 +133,27 @@ func replayDet(line []byte, a *Acc) {
 			if !check("AnyXml", ax, err, l.X) {
 				return
 			}
+			// the validity check on top changes nothing for well-formed output (escaping is on): every variant returns / writes the same bytes
+			if rep == 0 && wellFormed(b) == nil {
+				mxj.XmlCheckIsValid(true)
+				vb, e1 := m.Xml()
+				vbi, e2 := m.XmlIndent("", "  ")
+				var vw, vwi bytes.Buffer
+				e3 := m.XmlWriter(&vw)
+				e4 := m.XmlIndentWriter(&vwi, "", "  ")
+				vax, e5 := mxj.AnyXml(inner, "r")
+				vaxi, e6 := mxj.AnyXmlIndent(inner, "", "  ", "r")
+				vs, e7 := mxj.Maps{m, m}.XmlStringIndent("", "  ")
+				mxj.XmlCheckIsValid(false)
+				axi, _ := mxj.AnyXmlIndent(inner, "", "  ", "r")
+				si, _ := mxj.Maps{m, m}.XmlStringIndent("", "  ")
+				if !check("Xml under XmlCheckIsValid", vb, e1, l.X) || !check("XmlIndent under XmlCheckIsValid", vbi, e2, string(bi)) ||
+					!check("XmlWriter under XmlCheckIsValid", vw.Bytes(), e3, l.X) || !check("XmlIndentWriter under XmlCheckIsValid", vwi.Bytes(), e4, string(bi)) ||
+					!check("AnyXml under XmlCheckIsValid", vax, e5, l.X) || !check("AnyXmlIndent under XmlCheckIsValid", vaxi, e6, string(axi)) ||
+					!check("Maps.XmlStringIndent under XmlCheckIsValid", []byte(vs), e7, si) {
+					return
+				}
+			}
 			hl.add("AnyXml()", ax)
 			hl.add("Map.XmlIndent()", bi)
 			// JSON
@@ -174,6 +195,42 @@ func replayDet(line []byte, a *Acc) {
 			}
 			hl.add("Map.JsonIndent()", ji)
 			hl.add("Map.JsonIndentWriterRaw()", raw)
+			// every writer form under every spelling of the safe flag (absent / false / true), plain and indented ("" and blank indents)
+			for _, sf := range [][]bool{nil, {false}, {true}} {
+				want := l.J
+				if len(sf) == 1 && sf[0] {
+					want = l.Js
+				}
+				w.Reset()
+				err = m.JsonWriter(&w, sf...)
+				if !check(fmt.Sprintf("JsonWriter(safe %v)", sf), w.Bytes(), err, want) {
+					return
+				}
+				w.Reset()
+				raw, err = m.JsonWriterRaw(&w, sf...)
+				if !check(fmt.Sprintf("JsonWriterRaw(safe %v) result", sf), raw, err, want) || !check(fmt.Sprintf("JsonWriterRaw(safe %v) written", sf), w.Bytes(), nil, want) {
+					return
+				}
+				for _, ind := range [][2]string{{"", " "}, {"", ""}, {" ", "  "}} {
+					jis, e0 := m.JsonIndent(ind[0], ind[1], sf...)
+					var cjs bytes.Buffer
+					if e0 != nil || json.Compact(&cjs, jis) != nil || cjs.String() != want {
+						one("det:JsonIndent", fmt.Sprintf("JsonIndent(%q, %q, safe %v) = %q (err %v) does not compact to %q", ind[0], ind[1], sf, jis, e0, want))
+						return
+					}
+					w.Reset()
+					err = m.JsonIndentWriter(&w, ind[0], ind[1], sf...)
+					if !check(fmt.Sprintf("JsonIndentWriter(%q, %q, safe %v)", ind[0], ind[1], sf), w.Bytes(), err, string(jis)) {
+						return
+					}
+					w.Reset()
+					raw, err = m.JsonIndentWriterRaw(&w, ind[0], ind[1], sf...)
+					if !check(fmt.Sprintf("JsonIndentWriterRaw(%q, %q, safe %v) result", ind[0], ind[1], sf), raw, err, string(jis)) ||
+						!check(fmt.Sprintf("JsonIndentWriterRaw(%q, %q, safe %v) written", ind[0], ind[1], sf), w.Bytes(), nil, string(jis)) {
+						return
+					}
+				}
+			}
 			// Maps forms: concatenation of the per-Map encodings
 			ms := mxj.Maps{m, m}
 			s, err := ms.XmlString()
